@@ -281,10 +281,20 @@ func (h *c17Hist) teleport() {
 	n := m
 	n.Replicas, n.ISR = slices.Clone(m.Replicas), slices.Clone(m.ISR)
 	lt := c17IsLTKind(t.Kind)
-	if !lt {
-		if m.Leader == t.SourceNode {
+	if !lt && m.Leader == t.SourceNode {
+		// replica replacement of the leader: start inside its embedded transfer
+		var cand []uint64
+		for _, node := range m.ISR {
+			if node != t.SourceNode {
+				cand = append(cand, node)
+			}
+		}
+		if len(cand) == 0 {
 			return
 		}
+		t.EmbeddedLeaderTransfer, t.EmbeddedDesiredLeader = true, cand[h.rng.IntN(len(cand))]
+		lt = true
+	} else if !lt {
 		n.Replicas = append(n.Replicas, t.TargetNode) // learner already added
 		n.ChannelEpoch++
 	}
@@ -421,6 +431,52 @@ func (h *c17Hist) abortStep() {
 	h.apply(c17Single, c)
 }
 
+// windowStep attacks the window between an applied EMBEDDED leader commit of a
+// replica replacement and the completion of its clear-fence step.
+func (h *c17Hist) windowStep(ref c17Ref) {
+	rng := h.rng
+	t, ok := h.cur.Tasks[ref]
+	if !ok || t.IsTerminal() || !h.embeddedWindow[ref] {
+		h.wantWindow = nil
+		return
+	}
+	m := h.cur.Metas[ref.Ch]
+	none := metadb.ChannelMigrationCutoverProof{}
+	var c c17Cmd
+	if !c17EmbeddedWindowRow(t) {
+		// some earlier step moved the row away from VerifyNewLeader: now abort
+		c = h.mkAbort(t, m, "window:abort-after-move")
+		h.wantWindow = nil
+	} else {
+		switch rng.IntN(5) {
+		case 0:
+			c = h.mkAdvance(t, c17Aborted, t.Phase, none, "window:advance-to-aborted")
+			c.Rogue = true
+		case 1:
+			ph := []metadb.ChannelMigrationPhase{c17PValidate, c17PProbe, c17PWriteFence, c17PCommit, c17PAddLearner}[rng.IntN(5)]
+			c = h.mkAdvance(t, c17Running, ph, none, "window:advance-to-other-phase")
+		case 2:
+			if m.WriteFenceUntilMS > h.now {
+				h.now = m.WriteFenceUntilMS + 1 + int64(rng.IntN(500)) // the fence lease runs out
+			}
+			c = h.mkReset(t, m, "window:reset-after-fence-expiry")
+		case 3:
+			c = h.mkAbort(t, m, "window:abort")
+		default:
+			c = h.mkClaim(t, h.owner(t), "window:claim-with-other-phase")
+			c.Req.(*metadb.ChannelMigrationTaskClaim).Phase = []metadb.ChannelMigrationPhase{c17PProbe, c17PAddLearner}[rng.IntN(2)]
+			c.Rogue = true
+		}
+		if rng.IntN(3) == 0 {
+			h.wantWindow = nil
+		}
+	}
+	label := c.Label
+	if res := h.apply(c17Single, c); len(res) == 1 {
+		h.r.Count("embedded_window.attempt."+strings.TrimPrefix(label, "window:")+"."+res[0], 1)
+	}
+}
+
 func (h *c17Hist) replayStep() {
 	if len(h.sent) == 0 {
 		return
@@ -551,6 +607,10 @@ func (h *c17Hist) step() {
 	if rng.IntN(25) == 0 {
 		h.now += 2 * c17FenceTTL // fences and owner leases expire
 	}
+	if h.wantWindow != nil && rng.IntN(100) < 85 {
+		h.windowStep(*h.wantWindow)
+		return
+	}
 	if h.wantAbort != nil && rng.IntN(100) < 75 {
 		h.abortStep()
 		return
@@ -661,9 +721,9 @@ func c17RunHistory(r *verifkit.Run, t *testing.T, base string, i int, steps int)
 func TestVerifC17(t *testing.T) {
 	r := verifkit.Start(t, "C17", "main")
 	defer r.Finish()
-	r.SetRule("One history = a fresh meta DB + slot state machine, 1-2 channels, ~45 scheduler steps. Steps follow the production executor order for leader transfer / failover / replica replace (incl. embedded transfer) built from the rows just read back, and are perturbed: out-of-order kinds, every task-guard and runtime-guard field individually stale, stale snapshots, foreign/ghost task ids, cross-channel runtime guard, drain proofs stale in exactly one field, second create (plain and runtime-guarded) while a task is active, owner-lease games, verbatim replays, ordinary runtime-meta upserts bumping epochs/leader/fences, GC, deep-phase starts, multi-command batches. After EVERY ApplyBatch the monitor lists all task rows, active-index answers and runtime metas and judges (pre, command, result, post). Non-trivial = history with >=1 applied commit/promote AND >=1 cutover attempt whose stored proof differed from the runtime meta AND >=1 abort attempt on a task whose pre-state was post-cutover/completed; distinct by the sequence of (kind, perturbation, result).")
+	r.SetRule("One history = a fresh meta DB + slot state machine, 1-2 channels, ~45 scheduler steps. Steps follow the production executor order for leader transfer / failover / replica replace (incl. embedded transfer) built from the rows just read back, and are perturbed: out-of-order kinds, every task-guard and runtime-guard field individually stale, stale snapshots, foreign/ghost task ids, cross-channel runtime guard, drain proofs stale in exactly one field, second create (plain and runtime-guarded) while a task is active, owner-lease games, verbatim replays, ordinary runtime-meta upserts bumping epochs/leader/fences, GC, deep-phase starts, multi-command batches; 35% of replica replacements target the leader (embedded transfer) and the window between the applied embedded commit and its clear-fence step is attacked with Advance->Aborted, Advance/Claim to another phase, fence expiry + Reset, Abort. After EVERY ApplyBatch the monitor lists all task rows, active-index answers and runtime metas and judges (pre, command, result, post). Non-trivial = history with >=1 applied commit/promote AND >=1 cutover attempt whose stored proof differed from the runtime meta AND >=1 abort attempt on a task whose pre-state was post-cutover/completed; distinct by the sequence of (kind, perturbation, result).")
 	r.Assume("Ordinary UpsertChannelRuntimeMeta commands are environment input (they may bump epochs and, with a higher fence version, replace a fence by design of the monotonic upsert); rule 4 is judged for migration commands and GC only.")
-	r.Assume("'Can no longer be aborted' is judged on the task row: a task that is post-cutover (phase VerifyNewLeader/VerifyMembership/ClearFence, or Completed, or whose commit/promote this monitor saw applied) must never get Status=Aborted, whether through AbortChannelMigration or through Advance/Claim, which carry an arbitrary status under a CAS guard and are not documented as anything other than a task update. A commit inside a replica replacement (embedded leader transfer) is a sub-step: after its fence is cleared the task returns to AddLearner and may be aborted until its promote.")
+	r.Assume("'Can no longer be aborted' is judged on the task row: a task that is post-cutover (phase VerifyNewLeader/VerifyMembership/ClearFence, or Completed, or whose commit/promote this monitor saw applied) must never get Status=Aborted, whether through AbortChannelMigration or through Advance/Claim, which carry an arbitrary status under a CAS guard and are not documented as anything other than a task update. For a replica replacement with an embedded leader transfer the window from the applied embedded commit until its clear-fence step is applied is post-cutover as well (signatures ...:embedded-commit-window); after the clear the task is back in AddLearner and may legally be aborted until its promote.")
 	r.Assume("MinISR<=len(ISR) is judged as preservation by migration steps (ordinary upserts may legally store a shorter ISR); leader in ISR, ISR within replicas, 1<=MinISR<=len(replicas) are judged on every changed meta.")
 	n := r.N(1000, 20000)
 	base := t.TempDir()
